@@ -762,7 +762,8 @@ def cacheStep (st : Bytes) (str : Bytes) (detect : Option Bytes) (f : Parsed →
 empty text is an error; the format is detected on the first text that has one; it is remembered
 unless the text is `emptyTime` – what the date expression yields when every look-up is empty
 (`EvalStaticStage(dateStage)`, e.g. `2020-01-` for `2020-01-{0}`) – which is parsed like any other
-text.  (The second memory, used while the optimizer analyses the expression, is C10's concern.) -/
+text.  (The second memory and – since /repo 1dba502 – the touch of the context `context.GetMatch(-1)`, both used
+only while the optimizer analyses the expression, are C10's concern: an evaluation on input does neither.) -/
 def cacheStepE (emptyTime : Bytes) (st : Bytes) (str : Bytes) (detect : Option Bytes) (f : Parsed → Out) : Out × Bytes :=
   if str = [] then (.val errorParsing, st)
   else if st = [] then
